@@ -1141,6 +1141,9 @@ enum Op {
     Dormant(usize, bool),
     /// fresh ok intent on head `pos`
     Ingest(usize),
+    /// an intent that makes head `pos` fail with a typed engine error (head-scoped fault): a SECOND
+    /// faulted head next to the scenario's own
+    IngestBad(usize),
 }
 
 fn menu(w: &World, focus: usize) -> Vec<Op> {
@@ -1163,6 +1166,9 @@ fn apply_op(w: &mut World, op: &Op, sc: &Scenario, ktag: &str, out: &mut Out) {
         Op::Ingest(p) => {
             let b = w.fresh_ok(2);
             w.ingest(*p, b, None, out);
+        }
+        Op::IngestBad(p) => {
+            w.ingest(*p, Beh::InvalidOp, None, out);
         }
         Op::Dormant(p, d) => {
             let pre = runtime_view(&w.rt.runtime);
@@ -1279,6 +1285,43 @@ fn continuation(w0: &World, sc: &Scenario, depth: usize, focus: usize, ktag: &st
             }
         }
         frontier = next;
+    }
+}
+
+/// Two faulted heads, one recovery.  When the scenario left exactly one ACTIVE head-scoped fault,
+/// every other admitted head `s` (same worldline first) is made to fail in a LATER pass (typed
+/// engine error), so two quarantines coexist; then only ONE of the two faults is resolved (either
+/// one), a fresh ok intent is put on both heads and a pass runs: the head whose fault was not
+/// cited must stay quarantined (model: `faulted` stays true, nothing of it commits) while the
+/// recovered one commits.  Every step goes through `apply_op`, i.e. the full pass / quarantine oracle.
+fn two_fault_probe(w0: &World, sc: &Scenario, kpos: usize, ktag: &str, out: &mut Out) {
+    let act = active_faults(&w0.rt.runtime);
+    if act.len() != 1 || !matches!(act[0].2, SchedulerFaultScope::Head(_)) || w0.m.runtime_fault {
+        return;
+    }
+    let kw = w0.m.heads[kpos].w;
+    let mut sibs: Vec<usize> = (0..w0.m.heads.len()).filter(|p| *p != kpos && !w0.m.heads[*p].faulted && !w0.m.heads[*p].dormant).collect();
+    sibs.sort_by_key(|p| w0.m.heads[*p].w != kw); // same-worldline siblings first
+    for s in sibs.into_iter().take(2) {
+        for which in 0..2usize {
+            let mut w = w0.clone();
+            let tag = format!("{ktag}:two-faults");
+            apply_op(&mut w, &Op::IngestBad(s), sc, &tag, out);
+            apply_op(&mut w, &Op::Tick, sc, &tag, out);
+            if active_faults(&w.rt.runtime).len() != 2 {
+                out.c("two_fault_probe_second_fault_not_head_scoped_or_absent");
+                continue;
+            }
+            apply_op(&mut w, &Op::Resolve(which), sc, &tag, out);
+            apply_op(&mut w, &Op::Ingest(kpos), sc, &tag, out);
+            apply_op(&mut w, &Op::Ingest(s), sc, &tag, out);
+            apply_op(&mut w, &Op::Tick, sc, &tag, out);
+            check_quarantine(&w, &tag, out);
+            out.transitions += 6;
+            out.states += 6;
+            out.traces += 1;
+            out.c(if w0.m.heads[s].w == kw { "two_fault_probes_same_worldline" } else { "two_fault_probes_other_worldline" });
+        }
     }
 }
 
@@ -1452,6 +1495,7 @@ fn run_scenario(sc: &Scenario, cont_depth: usize) -> Out {
     }
     out.traces += 1;
     if !w.m.desync {
+        two_fault_probe(&w, sc, kpos, &ktag, &mut out);
         continuation(&w, sc, cont_depth, kpos, &ktag, &mut out);
     }
     out
@@ -1592,6 +1636,7 @@ fn main() {
     r.guard("lawful_rejections_seen", r.counter_value("lawful_rejections_committed") > 0);
     r.guard("blocked_passes_seen", r.counter_value("pass_blocked_by_runtime_fault") > 0);
     r.guard("recoveries_seen", r.counter_value("recoveries") > 0);
+    r.guard("two_faulted_heads_on_one_worldline_one_recovery_probed", r.counter_value("two_fault_probes_same_worldline") > 0);
     r.guard(
         "multi_commit_passes_seen",
         r.counter_value("successful_passes_with_2plus_commits") > 0,
